@@ -90,6 +90,8 @@ def c03_cases(tier, seed):
         [{"a": {"x": 1, "y": 2}, "b": {"x": 1, "y": 2}}, {"a": {"x": 1}}],
         [{"none": {"k": 1}, "true": {"k2": 2}}],
         [{"item": {"k": 1}, "items": [{"k": 1, "z": None}]}],
+        [{"none": {"k": 1}, "true": {"k2": "a"}, "exception": {"k3": 1.5}, "warnings": [{"k4": 1}]}],
+        [{"list": {"k": 1}, "dict": {"k2": 1}, "optional": {"k3": 2}, "any": {"k4": 1}}],
     ]
     for s in base:
         yield s
@@ -101,7 +103,10 @@ def c03_cases(tier, seed):
 
 def oracle_c03(case):
     samples, fw, layout, opts = case
-    reg, gen, roots = infer({"Root": samples})
+    if isinstance(samples, dict):
+        reg, gen, roots = infer(samples)
+    else:
+        reg, gen, roots = infer({"Root": samples})
     try:
         code = render(reg, fw, layout, **opts)
     except Exception as e:
@@ -184,6 +189,12 @@ def c03(tier, seed):
                 for o in opts:
                     cases.append((samples, fw, layout, o))
                 cases.append((samples, fw, layout, {"convert_unicode": False}))
+    # several named root data sets whose explicit names clash with generated names of nested models
+    multi = [{"Order": [{"items": [{"sku": 1}], "customer": {"n": "x"}}], "Item": [{"colour": "red", "w": 1.5}]},
+             {"Root": [{"child": {"a": 1}}], "Child": [{"b": "s"}], "Other": [{"child": {"c": None}}]}]
+    for m in multi:
+        for fw in FRAMEWORKS:
+            cases.append((m, fw, "flat", {}))
     r = run_cases(cases, oracle_c03, "c03")
     r["bound"] = "8 structured + seeded key-style inputs (12 realistic key styles incl. keywords/builtins/non-ASCII) x 5 frameworks x 2 layouts x converter/metadata/unicode options; compile+exec with a sqlmodel stub"
     r["function"] = "generate_code / compose_models(_flat) / prepare_label / fix_name_duplicates"
@@ -346,6 +357,10 @@ ALPHA = ["a", "b", '"', "\\", "\n", ",", "é", "😀", "'"]
 
 def c10_cases(tier, seed):
     rng = random.Random(seed)
+    yield (["a", "b", "a,b"], 10)
+    yield (["b,a", "b", "a"], 10)
+    yield (["...", "x" * 25], 10)
+    yield (["p,q", "p", "q", "p,q,r", "r"], 10)
     for ch in ALPHA:
         yield ([ch, ch + "x"], 10)
     for n in (1, 9, 10, 11, 14, 15, 16, 17):
@@ -446,6 +461,41 @@ def oracle_c11(case):
     if recovered != set(keys):
         return f"keys not recoverable: {sorted(set(keys) - recovered)} (fields {fl})"
     return None
+
+
+import builtins as _builtins
+
+
+def oracle_c11_classes(case):
+    keys, fw, unicode_ = case
+    sample = {k: {f"f{i}": i} for i, k in enumerate(keys)}
+    reg, gen, roots = infer({"Root": [sample]}, merge=[ModelFieldsEquals()])
+    code = render(reg, fw, "flat", convert_unicode=unicode_)
+    tree = ast.parse(code)
+    names = [c for c, _ in classes_of(tree)]
+    imported = {a.asname or a.name for n in tree.body if isinstance(n, (ast.Import, ast.ImportFrom)) for a in n.names}
+    for n in names:
+        if not n.isidentifier() or keyword.iskeyword(n):
+            return f"class name {n!r} (from keys {keys}) is not a valid non-keyword identifier"
+        if n in imported or hasattr(_builtins, n):
+            return f"class name {n!r} (from keys {keys}) collides with an imported / builtin name"
+    if len(set(names)) != len(names):
+        return f"class names not distinct: {names}"
+    load(code)
+    return None
+
+
+CLASS_KEYS = ["none", "true", "exception", "warnings", "list", "dict", "type", "user", "userData", "straße", "any", "optional", "field", "lists"]
+
+
+@bounded("C11", "class_names_from_keys")
+def c11_classes(tier, seed):
+    cases = [([k], fw, u) for k in CLASS_KEYS for fw in ("pydantic", "dataclasses") for u in (True, False)]
+    cases += [(list(c), "pydantic", True) for c in itertools.combinations(CLASS_KEYS, 2)][: (40 if tier == "quick" else 10 ** 6)]
+    r = run_cases(cases, oracle_c11_classes, "c11_classes")
+    r["bound"] = "14 keys whose singular CamelCase form is a keyword / builtin / typing / imported name or an ordinary word, object-valued (so they name classes), singles and pairs x 2 frameworks x unicode on/off"
+    r["function"] = "prepare_label / convert_class_name / generate_name / fix_name_duplicates"
+    return r
 
 
 def fold(k):
@@ -626,7 +676,7 @@ def c18(tier, seed):
     return r
 
 
-ORACLES = {"c03": oracle_c03, "c04": oracle_c04, "c10": oracle_c10, "c11": oracle_c11, "c12": oracle_c12, "c18": oracle_c18}
+ORACLES = {"c11_classes": lambda c: oracle_c11_classes(tuple(c)), "c03": oracle_c03, "c04": oracle_c04, "c10": oracle_c10, "c11": oracle_c11, "c12": oracle_c12, "c18": oracle_c18}
 
 
 def replay(w):
